@@ -141,7 +141,11 @@ def store_paths(repo: Repo, rep, P: str):
                             hit = x
                         if hit is not None:
                             n += 1
-                            if fq in CV_WRITERS:
+                            from .. import inline
+                            arel, aq = inline.attributed_to(repo, rel, f"{prefix}{ch.name}")
+                            if f"{arel}:{aq}" in CV_WRITERS and f"{arel}:{aq}" != fq:
+                                rep.ok(f"{P}.R2", fq, norm(hit)[:100], f"private helper of {aq}: " + CV_WRITERS[f"{arel}:{aq}"])
+                            elif fq in CV_WRITERS:
                                 rep.ok(f"{P}.R2", fq, norm(hit)[:100], CV_WRITERS[fq])
                             else:
                                 rep.violation(f"{P}.R2", fq, norm(hit)[:100],
@@ -174,16 +178,137 @@ def store_paths(repo: Repo, rep, P: str):
     else:
         rep.violation(f"{P}.R2", f"{rel}:Controller.__get__", gt[:120], "the getter must return the stored value", rel)
     mod = repo.cls("Module", module="rv.modules.module")
-    init = norm(repo.own_method(mod, "__init__"))
-    if init.count("controller.set_initial(self, v)") == 2 and init.count("kw.get(k, controller.default)") == 2:
-        rep.ok(f"{P}.R2", f"{mod.file.rel}:Module.__init__", "v = kw.get(k, controller.default); controller.set_initial(self, v)",
-               "constructor keywords and defaults obey the same validation")
+    seeds, _init = controller_seeding(repo)
+    mcon = f"{mod.file.rel}:Module.__init__"
+    if not seeds:
+        rep.violation(f"{P}.R2", mcon, "controller seeding loop",
+                      "every controller must be seeded from the keyword or its default through set_initial", mod.file.rel)
+    elif any(f == "?" or v is None for f, v, _ in seeds):
+        rep.inconclusive(f"{P}.R2", mcon, "; ".join(t for _, _, t in seeds)[:240], "controller seeding loop not recognised", mod.file.rel)
+    elif all(v for _, v, _ in seeds):
+        rep.ok(f"{P}.R2", mcon, "; ".join(t for _, _, t in seeds)[:200], "constructor keywords and defaults obey the same validation")
     else:
-        rep.violation(f"{P}.R2", f"{mod.file.rel}:Module.__init__", "controller seeding loop",
+        rep.violation(f"{P}.R2", mcon, "; ".join(t for _, _, t in seeds)[:240],
                       "every controller must be seeded from the keyword or its default through set_initial", mod.file.rel)
 
 
 # ------------------------------------------------------------------------------------ R3 / R4
+def _dep_polarity(e: ast.expr) -> Optional[int]:
+    """+1 if `e` is true exactly for controllers with a DependentRange, -1 if exactly for the others, else None."""
+    if isinstance(e, ast.UnaryOp) and isinstance(e.op, ast.Not):
+        p = _dep_polarity(e.operand)
+        return -p if p else None
+    if isinstance(e, ast.Call) and norm(e.func) == "isinstance" and len(e.args) == 2 and norm(e.args[1]).split(".")[-1] == "DependentRange" \
+            and norm(e.args[0]).endswith(".value_type"):
+        return +1
+    if isinstance(e, ast.Compare) and len(e.ops) == 1:
+        l, r, op = e.left, e.comparators[0], e.ops[0]
+        for a, b in ((l, r), (r, l)):
+            if isinstance(b, ast.Constant) and isinstance(b.value, bool):
+                p = _dep_polarity(a)
+                if p is None:
+                    return None
+                same = isinstance(op, (ast.Is, ast.Eq))
+                diff = isinstance(op, (ast.IsNot, ast.NotEq))
+                if not (same or diff):
+                    return None
+                keep = (b.value and same) or ((not b.value) and diff)
+                return p if keep else -p
+    return None
+
+
+def controller_seeding(repo: Repo):
+    """How Module.__init__ seeds the controllers: [(filter, value ok?, text)] per loop, in order.
+    filter: 'plain' | 'dependent' | 'all-sorted' | 'all' | '?'"""
+    from .. import inline, packed
+    mod = repo.cls("Module", module="rv.modules.module")
+    init = inline.normalize(repo, mod, repo.own_method(mod, "__init__"))
+    kwname = init.args.kwarg.arg if init.args.kwarg else "kw"
+    out = []
+    parents: Dict[int, ast.AST] = {}
+    for n in ast.walk(init):
+        for c in ast.iter_child_nodes(n):
+            parents[id(c)] = n
+    fdefs = packed.single_defs(init)
+    for lp in [n for n in ast.walk(init) if isinstance(n, ast.For)]:
+        it = packed.resolve_names(lp.iter, fdefs)
+        calls = [c for c in ast.walk(lp) if isinstance(c, ast.Call) and isinstance(c.func, ast.Attribute) and c.func.attr == "set_initial"]
+        if not calls or any(isinstance(m, ast.For) and m is not lp and any(c2 is calls[0] for c2 in ast.walk(m)) for m in ast.walk(lp)):
+            continue
+        sorted_by_dep = False
+        src = it
+        if isinstance(it, ast.Call) and norm(it.func) == "sorted" and it.args:
+            src = it.args[0]
+            key = next((k.value for k in it.keywords if k.arg == "key"), None)
+            body = None
+            if isinstance(key, ast.Lambda):
+                body = key.body
+            elif isinstance(key, ast.Name):
+                f = next((x for x in ast.walk(init) if isinstance(x, ast.FunctionDef) and x.name == key.id), None)
+                if f is not None:
+                    rets = [x.value for x in ast.walk(f) if isinstance(x, ast.Return) and x.value is not None]
+                    body = rets[0] if len(rets) == 1 else None
+            if body is not None and any(_dep_polarity(x) == +1 for x in ast.walk(body) if isinstance(x, ast.Call)) \
+                    and not any(isinstance(x, ast.UnaryOp) and isinstance(x.op, ast.Not) for x in ast.walk(body)) \
+                    and not any(k.arg == "reverse" for k in it.keywords):
+                sorted_by_dep = True
+        if norm(src) not in ("self.controllers.items()",) or not (isinstance(lp.target, ast.Tuple) and len(lp.target.elts) == 2):
+            out.append(("?", None, norm(lp.iter)[:80]))
+            continue
+        kv, cv = norm(lp.target.elts[0]), norm(lp.target.elts[1])
+        call = calls[0]
+        # conditions on the way to the call
+        conds = []
+        cur: ast.AST = call
+        while id(cur) in parents and cur is not lp:
+            par = parents[id(cur)]
+            if isinstance(par, ast.If):
+                inbody = any(cur is x or any(cur is y for y in ast.walk(x)) for x in par.body)
+                conds.append(par.test if inbody else ast.UnaryOp(op=ast.Not(), operand=par.test))
+            for fld in ("body", "orelse"):
+                block = getattr(par, fld, None)
+                if isinstance(block, list) and any(cur is x for x in block):
+                    for sib in block:
+                        if sib is cur:
+                            break
+                        if isinstance(sib, ast.If) and not sib.orelse and sib.body and isinstance(sib.body[-1], ast.Continue):
+                            conds.append(ast.UnaryOp(op=ast.Not(), operand=sib.test))
+            cur = par
+        pols = []
+        unknown = False
+        for c in conds:
+            p = _dep_polarity(packed.resolve_in_block(c, lp.body))
+            if p is None:
+                unknown = True
+            else:
+                pols.append(p)
+        if unknown or len(set(pols)) > 1:
+            flt = "?"
+        elif sorted_by_dep and not pols:
+            flt = "all-sorted"
+        elif not pols:
+            flt = "all"
+        else:
+            flt = "dependent" if pols[0] > 0 else "plain"
+        # the statement list that holds the call: its once-assigned locals are the call's operands
+        holder = lp.body
+        cur2: ast.AST = call
+        while id(cur2) in parents and cur2 is not lp:
+            par2 = parents[id(cur2)]
+            for fld in ("body", "orelse"):
+                blk = getattr(par2, fld, None)
+                if isinstance(blk, list) and any(cur2 is x for x in blk) and holder is lp.body and par2 is not lp:
+                    holder = blk
+            cur2 = par2
+        defs2 = dict(packed.once_defs(lp.body))
+        defs2.update(packed.once_defs(holder))
+        val = norm(packed.resolve_names(call.args[1], defs2)).replace(" ", "") if len(call.args) == 2 else ""
+        recv_ok = norm(call.func.value) == cv and norm(call.args[0]) == "self" if call.args else False
+        value_ok = recv_ok and val == f"{kwname}.get({kv},{cv}.default)"
+        out.append((flt, value_ok, f"for {kv}, {cv} in {norm(lp.iter)[:50]}: [{flt}] {cv}.set_initial(self, {val})"))
+    return out, init
+
+
 def strict_only_raise(repo: Repo):
     """raise_or_warn_controller_value_validation: (verdict, text) — 'ok' when the strict branch (flag true) always raises
     ControllerValueError and the lenient branch never raises; 'bad' when recognisably otherwise; 'unknown' else."""
